@@ -15,6 +15,7 @@
 -/
 import QKV.Lemmas.FixedQ
 import QKV.Model.Grad
+import QKV.Model.Stoch
 namespace QKV.Props.C06
 open QKV
 
@@ -402,5 +403,337 @@ example : (qbitsAutoUnrestoredD { bits := 4, integer := 2, keepNeg := true } tru
 -- above clip_max = 7 (x/qs = 7.75): value 7/4, gradient 0 at qnoise_factor 1
 example : (qlinearSD .even { bits := 4, integer := 0, symmetric := false, keepNeg := true, alpha := none }
     ⟨1 / 4, 9⟩ 1 (D.var (31 / 16))) = ⟨7 / 4, 0⟩ := by decide +kernel
+
+/-! ## stochastic rounding inside `_round_through` (both learning phases)
+
+  `use_stochastic_rounding=True` changes WHICH integer the rounding step emits (training phase only), never
+  the tangent: both branches of the `smart_cond` are straight-through. -/
+
+/-- the tangent of `_round_through` is the tangent of its argument — for every flag, learning phase,
+    precision and draw -/
+theorem C06_roundThroughS_tan (t : Tie) (r : Rnd) (a : D) : (D.roundThroughS t r a).tan = a.tan := by
+  unfold D.roundThroughS
+  split
+  · split <;> simp [D.add, D.sg]
+  · simp [D.add, D.sg]
+
+theorem C06_roundThroughS_straight (t : Tie) (r : Rnd) : StraightThrough (D.roundThroughS t r) :=
+  fun a => C06_roundThroughS_tan t r a
+
+theorem C06_roundThrough_straight (t : Tie) : StraightThrough (D.roundThrough t) := by
+  intro a; simp [D.roundThrough, D.add, D.sg]
+
+/-- inference branch (learning phase 0) = the deterministic straight-through rounding, as a dual number
+    (value AND tangent), whatever the flag / precision / draw -/
+theorem C06_roundThroughS_infer (t : Tie) (r : Rnd) (h : r.phase = false) (a : D) :
+    D.roundThroughS t r a = D.roundThrough t a := by
+  unfold D.roundThroughS D.roundThrough
+  simp [h]
+
+/-- … and so is the call without the flag, in both phases -/
+theorem C06_roundThroughS_noflag (t : Tie) (r : Rnd) (h : r.stoch = false) (a : D) :
+    D.roundThroughS t r a = D.roundThrough t a := by
+  unfold D.roundThroughS D.roundThrough
+  simp [h]
+
+/-- training branch: the value is the stochastic rounding of the argument -/
+theorem C06_roundThroughS_train_val (t : Tie) (r : Rnd) (hs : r.stoch = true) (hp : r.phase = true) (a : D) :
+    (D.roundThroughS t r a).val = D.stochRoundV r.precision r.u a.val := by
+  unfold D.roundThroughS
+  simp only [hs, hp, if_true, D.add, D.sg, D.neg, D.stochRound]
+  ring
+
+/-- `stochastic_round` with precision 1 emits `⌊v⌋` or `⌈v⌉` (an adjacent integer; C08 is about which) -/
+theorem C06_stochRound_adjacent (u v : ℚ) :
+    D.stochRoundV 1 u v = ((v.floor : ℤ) : ℚ) ∨ D.stochRoundV 1 u v = D.ceilv v := by
+  unfold D.stochRoundV
+  simp only [div_one, mul_one]
+  split
+  · left; rfl
+  · right; rfl
+
+/-- the value model of `stochastic_round` used here is the one C08's theorems are about -/
+theorem C06_stochRound_is_C08 (precision u v : ℚ) :
+    D.stochRoundV precision u v = QKV.Stoch.stochasticRound v precision u := rfl
+
+/-- plain `tf.round` (the straight-through residual dropped) is NOT straight-through -/
+theorem C06_round_not_straight (t : Tie) : ¬ StraightThrough (D.round t) := by
+  intro h
+  have := h ⟨0, 1⟩
+  simp [D.round] at this
+
+/-! ### quantized_linear for an arbitrary rounding step -/
+
+/-- for EVERY straight-through rounding step: gradient 1 inside the clip range, `1 − qnoise_factor`
+    outside (1-bit sign function included) -/
+theorem C06_linear_rt_grad (rt : D → D) (hrt : StraightThrough rt) (c : LinCfg) (qs : D)
+    (hq : qs.val ≠ 0) (qf x : ℚ) :
+    (qlinearRD rt c qs qf (D.var x)).tan
+      = if linLo c ≤ x / qs.val ∧ x / qs.val ≤ linHi c then 1 else 1 - qf := by
+  unfold qlinearRD linLo linHi
+  cases hsf : c.signFn <;>
+  · simp only [Bool.false_eq_true, if_false, if_true, D.smul, D.var, D.add, D.const,
+      D.sg, D.sub, D.div, D.mul, mul_zero, zero_add, add_zero, hrt _]
+    simp only [D.clip]
+    split
+    · field_simp; ring
+    · ring
+
+/-- `use_stochastic_rounding=True`, either learning phase, any draw: the gradient of quantized_linear is
+    the one without the flag -/
+theorem C06_linear_stoch_grad (t : Tie) (r : Rnd) (c : LinCfg) (qs : D) (hq : qs.val ≠ 0) (qf x : ℚ) :
+    (qlinearRD (D.roundThroughS t r) c qs qf (D.var x)).tan = (qlinearSD t c qs qf (D.var x)).tan := by
+  rw [C06_linear_rt_grad _ (C06_roundThroughS_straight t r) c qs hq, C06_linear_auto_grad t c qs hq]
+
+/-- the deterministic transcription is the instance `rt = D.roundThrough t` -/
+theorem C06_linear_rt_det (t : Tie) (c : LinCfg) (qs : D) (qf : ℚ) (x : D) :
+    qlinearRD (D.roundThrough t) c qs qf x = qlinearSD t c qs qf x := rfl
+
+/-- in learning phase 0 the flag changes nothing at all (value and gradient) -/
+theorem C06_linear_stoch_infer (t : Tie) (r : Rnd) (h : r.phase = false) (c : LinCfg) (qs : D) (qf : ℚ) (x : D) :
+    qlinearRD (D.roundThroughS t r) c qs qf x = qlinearSD t c qs qf x := by
+  have : D.roundThroughS t r = D.roundThrough t := funext (C06_roundThroughS_infer t r h)
+  rw [this]; rfl
+
+/-- what the residual is for: with plain `tf.round` as the rounding step the gradient of quantized_linear
+    is `1 − qnoise_factor` for EVERY input — identically zero at the default factor 1 -/
+theorem C06_linear_round_only_tan (t : Tie) (c : LinCfg) (qs : D) (qf x : ℚ) :
+    (qlinearRD (D.round t) c qs qf (D.var x)).tan = 1 - qf := by
+  unfold qlinearRD
+  cases hsf : c.signFn <;>
+  · simp only [Bool.false_eq_true, if_false, if_true, D.smul, D.var, D.add, D.const,
+      D.sg, D.sub, D.div, D.mul, D.round, mul_zero, zero_add, add_zero, zero_mul]
+    ring
+
+/-! ### quantized_tanh / quantized_sigmoid for an arbitrary rounding step -/
+
+theorem C06_tanh_rt_grad (rt : D → D) (hrt : StraightThrough rt) (bits : ℤ) (sym : Bool) (p dp : ℚ) :
+    (qtanhRD rt bits sym ⟨p, dp⟩).tan
+      = if (-1 + (if sym then 1 else 0) / (twoPow (bits - 1) : ℚ)) ≤
+            1 / (twoPow (bits - 1) : ℚ) * (rt ⟨(twoPow (bits - 1) : ℚ) * p, (twoPow (bits - 1) : ℚ) * dp⟩).val ∧
+           1 / (twoPow (bits - 1) : ℚ) * (rt ⟨(twoPow (bits - 1) : ℚ) * p, (twoPow (bits - 1) : ℚ) * dp⟩).val
+            ≤ 1 - 1 / (twoPow (bits - 1) : ℚ)
+        then dp else 0 := by
+  have hm : (twoPow (bits - 1) : ℚ) ≠ 0 := by
+    rw [twoPow_eq_tp]; exact_mod_cast (tp_pos _).ne'
+  unfold qtanhRD
+  simp only [D.smul, D.clip, hrt _]
+  have e2 : 1 / (twoPow (bits - 1) : ℚ) * ((twoPow (bits - 1) : ℚ) * dp) = dp := by field_simp
+  simp only [e2]
+
+theorem C06_sigmoid_rt_grad (rt : D → D) (hrt : StraightThrough rt) (bits : ℤ) (sym : Bool) (p dp : ℚ) :
+    (qsigmoidRD rt bits sym ⟨p, dp⟩).tan
+      = if ((if sym then 1 else 0) / (twoPow bits : ℚ)) ≤
+            1 / (twoPow bits : ℚ) * (rt ⟨(twoPow bits : ℚ) * p, (twoPow bits : ℚ) * dp⟩).val ∧
+           1 / (twoPow bits : ℚ) * (rt ⟨(twoPow bits : ℚ) * p, (twoPow bits : ℚ) * dp⟩).val
+            ≤ 1 - 1 / (twoPow bits : ℚ)
+        then dp else 0 := by
+  have hm : (twoPow bits : ℚ) ≠ 0 := by rw [twoPow_eq_tp]; exact_mod_cast (tp_pos _).ne'
+  unfold qsigmoidRD
+  simp only [D.smul, D.clip, hrt _]
+  have e2 : 1 / (twoPow bits : ℚ) * ((twoPow bits : ℚ) * dp) = dp := by field_simp
+  simp only [e2]
+
+theorem C06_tanh_rt_det (t : Tie) (bits : ℤ) (sym : Bool) (p : D) :
+    qtanhRD (D.roundThrough t) bits sym p = qtanhD t bits sym p := rfl
+theorem C06_sigmoid_rt_det (t : Tie) (bits : ℤ) (sym : Bool) (p : D) :
+    qsigmoidRD (D.roundThrough t) bits sym p = qsigmoidD t bits sym p := rfl
+
+/-- learning phase 0: `use_stochastic_rounding=True` changes neither value nor gradient -/
+theorem C06_tanh_stoch_infer (t : Tie) (r : Rnd) (h : r.phase = false) (bits : ℤ) (sym : Bool) (p : D) :
+    qtanhRD (D.roundThroughS t r) bits sym p = qtanhD t bits sym p := by
+  have : D.roundThroughS t r = D.roundThrough t := funext (C06_roundThroughS_infer t r h)
+  rw [this]; rfl
+theorem C06_sigmoid_stoch_infer (t : Tie) (r : Rnd) (h : r.phase = false) (bits : ℤ) (sym : Bool) (p : D) :
+    qsigmoidRD (D.roundThroughS t r) bits sym p = qsigmoidD t bits sym p := by
+  have : D.roundThroughS t r = D.roundThrough t := funext (C06_roundThroughS_infer t r h)
+  rw [this]; rfl
+
+/-- `use_stochastic_rounding=True`, either phase, any draw: surrogate' times the clip mask of the value
+    actually emitted -/
+theorem C06_tanh_stoch_grad (t : Tie) (r : Rnd) (bits : ℤ) (sym : Bool) (p dp : ℚ) :
+    (qtanhRD (D.roundThroughS t r) bits sym ⟨p, dp⟩).tan
+      = if (-1 + (if sym then 1 else 0) / (twoPow (bits - 1) : ℚ)) ≤
+            1 / (twoPow (bits - 1) : ℚ) *
+              (D.roundThroughS t r ⟨(twoPow (bits - 1) : ℚ) * p, (twoPow (bits - 1) : ℚ) * dp⟩).val ∧
+           1 / (twoPow (bits - 1) : ℚ) *
+              (D.roundThroughS t r ⟨(twoPow (bits - 1) : ℚ) * p, (twoPow (bits - 1) : ℚ) * dp⟩).val
+            ≤ 1 - 1 / (twoPow (bits - 1) : ℚ)
+        then dp else 0 :=
+  C06_tanh_rt_grad _ (C06_roundThroughS_straight t r) bits sym p dp
+
+theorem C06_sigmoid_stoch_grad (t : Tie) (r : Rnd) (bits : ℤ) (sym : Bool) (p dp : ℚ) :
+    (qsigmoidRD (D.roundThroughS t r) bits sym ⟨p, dp⟩).tan
+      = if ((if sym then 1 else 0) / (twoPow bits : ℚ)) ≤
+            1 / (twoPow bits : ℚ) * (D.roundThroughS t r ⟨(twoPow bits : ℚ) * p, (twoPow bits : ℚ) * dp⟩).val ∧
+           1 / (twoPow bits : ℚ) * (D.roundThroughS t r ⟨(twoPow bits : ℚ) * p, (twoPow bits : ℚ) * dp⟩).val
+            ≤ 1 - 1 / (twoPow bits : ℚ)
+        then dp else 0 :=
+  C06_sigmoid_rt_grad _ (C06_roundThroughS_straight t r) bits sym p dp
+
+/-- with plain `tf.round` the gradient of quantized_tanh / quantized_sigmoid vanishes identically -/
+theorem C06_tanh_round_only_tan (t : Tie) (bits : ℤ) (sym : Bool) (p : D) :
+    (qtanhRD (D.round t) bits sym p).tan = 0 := by
+  unfold qtanhRD; simp [D.smul, D.clip, D.round]
+theorem C06_sigmoid_round_only_tan (t : Tie) (bits : ℤ) (sym : Bool) (p : D) :
+    (qsigmoidRD (D.round t) bits sym p).tan = 0 := by
+  unfold qsigmoidRD; simp [D.smul, D.clip, D.round]
+
+/-! ### quantized_bits: the rounding step sits under the outer stop_gradient -/
+
+/-- gradient of quantized_bits for ANY rounding step (straight-through or not): 1 | 1 − qf -/
+theorem C06_bits_rt_grad (rt : D → D) (c : BitsCfg) (useSte : Bool) (qf x : ℚ) :
+    (qbitsRD rt c useSte qf (D.var x)).tan = if useSte then 1 else 1 - qf := by
+  unfold qbitsRD; rw [C06_steMix_tan]; simp [D.var]
+
+theorem C06_bits_rt_det (t : Tie) (c : BitsCfg) (useSte : Bool) (qf : ℚ) (x : D) :
+    qbitsRD (D.roundThrough t) c useSte qf x = qbitsD t c useSte qf x := rfl
+
+theorem C06_bits_stoch_infer (t : Tie) (r : Rnd) (h : r.phase = false) (c : BitsCfg) (useSte : Bool)
+    (qf : ℚ) (x : D) : qbitsRD (D.roundThroughS t r) c useSte qf x = qbitsD t c useSte qf x := by
+  have : D.roundThroughS t r = D.roundThrough t := funext (C06_roundThroughS_infer t r h)
+  rw [this]; rfl
+
+/-! ## the ReLU family for every legal `negative_slope` (2^-k, 1, 2, 4, …) -/
+
+/-- value and derivative of the surrogate transcription = the documented leaky, bounded ReLU -/
+theorem C06_leaky_xu (slope : ℚ) (bound : Option ℚ) (x : ℚ) :
+    reluPo2Xu slope bound (D.var x) = ⟨leakyBounded slope bound x, leakyBoundedSlope slope bound x⟩ := by
+  unfold reluPo2Xu leakyBounded leakyBoundedSlope
+  rcases bound with _ | b
+  · simp only [D.relu, D.var]
+    by_cases hx : 0 < x <;> simp [hx]
+  · simp only [D.var]
+    by_cases hh : x ≤ b
+    · simp only [hh, if_true, D.relu]
+      by_cases hx : 0 < x <;> simp [hx]
+    · simp [hh, D.const]
+
+/-- quantized_relu, ANY slope: gradient = (1 | 1 − qf) · slope of the leaky bounded ReLU; value mixes the
+    surrogate with the quantized tensor -/
+theorem C06_relu_general_grad (slope : ℚ) (integer nsb : ℤ) (o : ReluOpts) (useSte : Bool) (qf x : ℚ) (xq : D) :
+    (qreluGD slope integer nsb o useSte qf (D.var x) xq).tan
+      = (if useSte then 1 else 1 - qf) * leakyBoundedSlope slope (reluBound integer nsb o) x := by
+  unfold qreluGD; rw [C06_steMix_tan, C06_leaky_xu]
+
+theorem C06_relu_general_val (slope : ℚ) (integer nsb : ℤ) (o : ReluOpts) (useSte : Bool) (qf x : ℚ) (xq : D) :
+    (qreluGD slope integer nsb o useSte qf (D.var x) xq).val
+      = leakyBounded slope (reluBound integer nsb o) x
+        + qf * (xq.val - leakyBounded slope (reluBound integer nsb o) x) := by
+  unfold qreluGD; rw [C06_steMix_val, C06_leaky_xu]
+
+/-- the 2^-k transcription is the instance `slope = c.slope` -/
+theorem C06_relu_general_agrees (c : ReluCfg) (o : ReluOpts) (useSte : Bool) (qf : ℚ) (x xq : D) :
+    qreluGD c.slope c.integer c.nsb o useSte qf x xq = qreluD c o useSte qf x xq := by
+  unfold qreluGD qreluD reluXu reluBound reluPo2Xu
+  cases o.isQuantizedClip
+  · rcases o.upper with _ | u <;> simp
+  · simp
+
+/-- quantized_relu_po2, ANY slope, value clause (the gradient is `C06_relu_po2_grad`) -/
+theorem C06_relu_po2_val (slope : ℚ) (mv : Option ℚ) (useSte : Bool) (qf x : ℚ) (xq : D) :
+    (qreluPo2D slope mv useSte qf (D.var x) xq).val
+      = leakyBounded slope mv x + qf * (xq.val - leakyBounded slope mv x) := by
+  unfold qreluPo2D; rw [C06_steMix_val, C06_leaky_xu]
+
+theorem C06_relu_po2_grad' (slope : ℚ) (mv : Option ℚ) (useSte : Bool) (qf x : ℚ) (xq : D) :
+    (qreluPo2D slope mv useSte qf (D.var x) xq).tan
+      = (if useSte then 1 else 1 - qf) * leakyBoundedSlope slope mv x := by
+  unfold qreluPo2D; rw [C06_steMix_tan, C06_leaky_xu]
+
+/-- `tf.maximum(slope·x, x)` is the leaky ReLU (value and gradient, at every input) exactly when
+    `slope ≤ 1`: for the legal slopes 2, 4, … it swaps the two sides -/
+theorem C06_leaky_max_form_iff (slope : ℚ) :
+    (∀ x : ℚ, leakyMaxForm slope (D.var x) = D.relu (D.var x) slope) ↔ slope ≤ 1 := by
+  constructor
+  · intro h
+    by_contra hs
+    push Not at hs
+    have := h 1
+    simp only [leakyMaxForm, D.relu, D.smul, D.var, mul_one] at this
+    rw [if_pos hs.le] at this
+    simp at this
+    linarith
+  · intro hs x
+    simp only [leakyMaxForm, D.relu, D.smul, D.var, mul_one]
+    by_cases hx : 0 < x
+    · have : ¬ x ≤ slope * x ∨ slope = 1 := by
+        by_cases h1 : slope = 1
+        · right; exact h1
+        · left; push Not; have : slope < 1 := lt_of_le_of_ne hs h1; nlinarith
+      rcases this with h | h
+      · simp [h, hx]
+      · simp [h, hx]
+    · push Not at hx
+      have : x ≤ slope * x := by nlinarith
+      simp [this, not_lt.mpr hx]
+
+/-- … concretely, for slope 2: at x = 1 the gradient is 2 (expected 1), at x = −1 it is 1 (expected 2) -/
+theorem C06_leaky_max_form_counterexample :
+    (leakyMaxForm 2 (D.var 1)).tan = 2 ∧ (D.relu (D.var 1) 2).tan = 1 ∧
+    (leakyMaxForm 2 (D.var (-1))).tan = 1 ∧ (D.relu (D.var (-1)) 2).tan = 2 := by
+  decide +kernel
+
+/-! ## binary(use_stochastic_rounding=True) in the training phase — recorded finding
+
+  `x = f * _round_through(x / f, True, 0.125)` with `f = 2·min(max|x|, 1)` differentiable: the tangent of
+  the carrier is `x' + f'·(r − x/f)` (`r` the rounded quotient): the rounding residue of EVERY element leaks
+  into the gradient of the arg-max element. -/
+
+theorem C06_binary_sr_train_tan (t : Tie) (f : D) (hf : f.val ≠ 0) (u : ℚ) (x : D) :
+    (binSRTrainX t f u x).tan
+      = x.tan + f.tan * (D.stochRoundV (1/8) u (x.val / f.val) - x.val / f.val) := by
+  unfold binSRTrainX
+  simp only [D.mul, D.div, D.roundThroughS, if_true, D.add, D.sg, D.neg, D.stochRound]
+  field_simp
+  ring
+
+/-- provable part: where `f` does not depend on the input (every element but the arg-max, or
+    `max|x| > 1`, or `f` under stop_gradient) the carrier is straight-through -/
+theorem C06_binary_sr_train_partial (t : Tie) (f : D) (hf : f.val ≠ 0) (h0 : f.tan = 0) (u : ℚ) (x : D) :
+    (binSRTrainX t f u x).tan = x.tan := by
+  rw [C06_binary_sr_train_tan t f hf, h0]; ring
+
+/-- constant-scale binary in training, `f` independent of the input: gradient 1 -/
+theorem C06_binary_sr_partial (t : Tie) (phase : Bool) (th th' : ℚ → ℚ) (f : D) (hf : f.val ≠ 0)
+    (h0 : f.tan = 0) (u x : ℚ) (xq : D) :
+    (binSRD t phase false th th' f u (D.var x) xq).tan = 1 := by
+  unfold binSRD
+  rw [C06_steMix_tan]
+  cases phase
+  · simp [D.var]
+  · simp only [if_true, Bool.false_eq_true, if_false, one_mul]
+    rw [C06_binary_sr_train_partial t f hf h0]; rfl
+
+/-- learning phase 0: exactly `binTerD` (the flag changes nothing in the gradient path) -/
+theorem C06_binary_sr_infer (t : Tie) (alphaNone : Bool) (th th' : ℚ → ℚ) (f : D) (u : ℚ) (x xq : D) :
+    binSRD t false alphaNone th th' f u x xq = binTerD alphaNone th th' x xq := by
+  unfold binSRD binTerD; simp
+
+/-- COUNTEREXAMPLE (known finding C06-binary-sr-train-leak): an element x_j = 5/16 (tangent 0 w.r.t. the
+    arg-max element), f = 1 with tangent 2 (max|x| = 1/2 at a positive arg-max), draw 0: the output
+    y_j = 3/8 has derivative 1/8 w.r.t. the arg-max element — the identity surrogate has 0 there -/
+theorem C06_binary_sr_train_counterexample :
+    (binSRD .even true false (fun _ => 0) (fun _ => 0) ⟨1, 2⟩ 0 ⟨5 / 16, 0⟩ (D.const 1)).tan = 1 / 8 := by
+  decide +kernel
+
+/-! ## non-vacuity of the new statements -/
+
+-- quantized_linear(4, 0, 1), stochastic rounding, training phase, x = 5/16 (x/qs = 2.5), draw 3/4:
+-- fraction 1/2 < 3/4 -> floor -> 2/8, gradient 1; draw 1/4 -> ceil -> 3/8, gradient 1
+example : (qlinearRD (D.roundThroughS .even { stoch := true, phase := true, u := 3 / 4 })
+    { bits := 4, integer := 0, symmetric := true, keepNeg := true, alpha := none } ⟨1 / 8, 0⟩ 1 (D.var (5 / 16)))
+    = ⟨1 / 4, 1⟩ := by decide +kernel
+example : (qlinearRD (D.roundThroughS .even { stoch := true, phase := true, u := 1 / 4 })
+    { bits := 4, integer := 0, symmetric := true, keepNeg := true, alpha := none } ⟨1 / 8, 0⟩ 1 (D.var (5 / 16)))
+    = ⟨3 / 8, 1⟩ := by decide +kernel
+-- the same input with the residual dropped: value 1/4 (tie to even), gradient 0
+example : (qlinearRD (D.round .even)
+    { bits := 4, integer := 0, symmetric := true, keepNeg := true, alpha := none } ⟨1 / 8, 0⟩ 1 (D.var (5 / 16)))
+    = ⟨1 / 4, 0⟩ := by decide +kernel
+-- quantized_relu_po2(negative_slope=4): surrogate 4x for x < 0 with slope 4
+example : reluPo2Xu 4 none (D.var (-1 / 2)) = ⟨-2, 4⟩ := by decide +kernel
+example : StraightThrough (D.roundThroughS .even { stoch := true, phase := true, u := 1 / 2 }) :=
+  C06_roundThroughS_straight _ _
 
 end QKV.Props.C06
